@@ -46,7 +46,7 @@ def _eligible(state, ignored):
            'root / child, 3 ignored_states settings, symbolic expiration '
            'time, limit in {None, 0, 1}; superfluous: 3 rows with symbolic '
            'state / updated_at, max_finished_executions in 0..3, limit in '
-           '{None, 1}',
+           '{None, 1, 2}',
     stubs=['minidb'])
 def c18_1(ctx):
     """expired candidates = finished, non-ignored roots older than the
@@ -84,7 +84,7 @@ def c18_1(ctx):
         db = minidb.MiniDB()
         ignored = choice('ignored', IGNORED_SETS[:2])
         mfe = choice('mfe', [0, 1, 2, 3])
-        limit = choice('limit', [None, 1])
+        limit = choice('limit', [None, 1, 2])
         rows_in = []
         with minidb.installed(db), \
                 env.conf_shim(_conf(None, mfe, 0, ignored), sa_api):
@@ -236,7 +236,7 @@ def _c18_2_case(n_roots, settings):
 
 SETTINGS_Q = [
     (1, 0, 0, []), (None, 1, 0, []), (1, 1, 0, []), (60, 2, 1, ['ERROR']),
-    (0, 0, 0, []),
+    (0, 0, 0, []), (None, 2, 2, []), (None, 1, 5, ['SUCCESS']),
 ]
 # (older_than unset, mfe 0) is excluded: ExecutionExpirationPolicy.__init__
 # does not register the task for it (C18.3)
@@ -258,7 +258,7 @@ SETTINGS_T = [(ot, mfe, b, ig)
                'mistral.db.v2.sqlalchemy.api:get_superfluous_executions'],
     bounds={'quick': '3 root executions (state symbolic over 8, updated_at '
                      'symbolic, 2 projects), one of them with task + action '
-                     '+ sub-workflow + its task; 6 settings of (older_than, '
+                     '+ sub-workflow + its task; 8 settings of (older_than, '
                      'max_finished_executions, batch_size, ignored_states) '
                      'including unset older_than',
             'thorough': '4 roots; all 88 reachable settings of older_than in {unset, '
